@@ -241,6 +241,34 @@ def check(ctx: Ctx) -> list[RuleResult]:
     r4.instances += 1
     r4.nontrivial += 1
     r4.ok({"store_tests_over_db_content_or_dtm": db_tests})
+    # filing one message touches that message's own entry only: a store that re-builds a level of the index from its current
+    # content (a filtering comprehension over the DB itself), or a deletion, removes *other* contexts while writing this one -
+    # what the entity still holds (and what a snapshot contains) then depends on which sibling context happened to be written last
+    r4.instances += 1
+    r4.nontrivial += 1
+    rebuilt = []
+    for n in own_nodes(hm.node):
+        val = None
+        tgt = None
+        if isinstance(n, ast.Assign) and len(n.targets) == 1:
+            tgt, val = n.targets[0], n.value
+        elif isinstance(n, ast.Delete):
+            tgt = n.targets[0]
+            if any(isinstance(x, ast.Attribute) and x.attr in ("_msgs_", "_msgz_") for x in ast.walk(tgt)):
+                rebuilt.append(n)
+            continue
+        elif isinstance(n, ast.Call) and isinstance(n.func, ast.Attribute) and n.func.attr in ("pop", "popitem", "clear") and any(isinstance(x, ast.Attribute) and x.attr in ("_msgs_", "_msgz_") for x in ast.walk(n.func.value)):
+            rebuilt.append(n)
+            continue
+        if tgt is None or val is None or not any(isinstance(x, ast.Attribute) and x.attr in ("_msgs_", "_msgz_") for x in ast.walk(tgt)):
+            continue
+        if isinstance(val, (ast.DictComp, ast.ListComp, ast.SetComp, ast.GeneratorExp)) or (isinstance(val, ast.Call) and norm(val.func) in ("dict", "OrderedDict") and val.args and isinstance(val.args[0], (ast.GeneratorExp, ast.ListComp, ast.DictComp))):
+            if any(isinstance(x, ast.Attribute) and x.attr in ("_msgs_", "_msgz_") for x in ast.walk(val)):
+                rebuilt.append(n)
+    if rebuilt:
+        r4.fail(f"{hm.short}:index-rebuilt-on-write", hm.loc(rebuilt[0]), f"`{norm(rebuilt[0])[:80]}` in _handle_msg removes or re-builds entries of the message index other than the one being written: sibling contexts (the 000C replies for other roles, other OpenTherm ids, other fragments) disappear as a side effect of an unrelated write, so the state kept - and any snapshot of it - depends on arrival order")
+    else:
+        r4.ok({"_handle_msg": "writes only the message's own entry (no re-build / deletion of the index)"})
     out.append(r4)
 
     # ---- R5 ---------------------------------------------------------------------------
